@@ -13,11 +13,13 @@
    order.  (For the track-UID list of an object the image is taken of the list as addReference replays it: silent
    UIDs may repeat, a repeated non-silent UID is listed once; without such repetition it is the list itself.)
    The copy is again well-formed, synchronised and disjoint, so the theorem applies to copies of copies.
-   Not proved here: independence under later mutations as a theorem about footprints per document (in the model
-   distinct handles are distinct objects, and the differential run mutates either side and compares the other);
-   that deepCopy never throws on such a source. *)
+   Independence (Heap/Local.v): from any well-formed, synchronised state - in particular after a deepCopy - any sequence
+   of the twelve core calls, whatever their outcome, whose element arguments are not elements of a document dB and
+   whose document argument is not dB leaves every element of dB and dB's membership lists exactly as they were; with dB
+   the original this is "mutating the copy does not change the original", with dB the copy the converse.
+   Not proved here: that deepCopy never throws on such a source; "hence byte-identical XML" relies on C01. *)
 From Adm Require Import Heap.Exec Heap.More gen.PlansGen Heap.PlanChecks Heap.Frame Heap.Copy Heap.WF Heap.Sync Heap.Remove
-  Heap.WFExt Heap.CopyRefs Heap.CopyInv Heap.Joint.
+  Heap.WFExt Heap.CopyRefs Heap.CopyInv Heap.Joint Heap.Acyclic Heap.Local.
 
 Theorem C09_copy_keeps_everything_but_links : forall e,
   ekind (copy_of e) = ekind e /\ ehoa (copy_of e) = ehoa e /\ eid (copy_of e) = eid e /\ etd (copy_of e) = etd e /\
@@ -108,6 +110,59 @@ Theorem C09_copy_all_specification : forall d base s s2 mp, copy_all gen_plans d
                               forall rk, refs s2 (mpf mp h) rk = map (mpf mp) (obs s h rk)).
 Proof. exact (copy_all_spec gen_plans). Qed.
 Print Assumptions C09_copy_all_specification.
+
+(* ---------- independence ---------- *)
+(* [run] executes a list of calls to the end, whether or not individual calls throw; [subj_ok dB B o]: the call o names no
+   element of B and not the document dB *)
+Theorem C09_mutations_leave_the_other_side_unchanged : forall dB s0 ops, WF s0 -> Sync s0 ->
+  Forall (subj_ok dB (in_doc s0 dB)) ops ->
+  (forall y, parent s0 y = Some dB -> get_elem (run gen_plans ops s0) y = get_elem s0 y) /\
+  get_doc (run gen_plans ops s0) dB = get_doc s0 dB.
+Proof. exact (other_side_unchanged gen_plans). Qed.
+Print Assumptions C09_mutations_leave_the_other_side_unchanged.
+
+Theorem C09_independence_vocabulary : forall dB (B : positive -> Prop) o,
+  subj_ok dB B o <->
+  match o with
+  | ONewDoc d | OAdd d _ | ORemove d _ => d <> dB
+  | OAddRef _ a b | ORemoveRef _ a b | OSetRef _ a b => ~ B a /\ ~ B b
+  | OUnsetRef _ a | OClearRefs _ a | OSetId a _ => ~ B a
+  | ONew _ _ _ _ | OGetSilent _ _ | OLookup _ _ _ => True
+  end.
+Proof. intros dB B o. destruct o; simpl; tauto. Qed.
+Print Assumptions C09_independence_vocabulary.
+
+(* after a deepCopy: calls on the copy (its document dnew, its elements, new elements) leave the original as it is *)
+Theorem C09_copy_and_original_are_independent : forall d dnew base s s' u ops,
+  deep_copy gen_plans d dnew base s = (s', inl u) -> WF s -> Sync s -> ObjDisjoint s ->
+  Forall (subj_ok d (in_doc s' d)) ops ->
+  (forall y, parent s' y = Some d -> get_elem (run gen_plans ops s') y = get_elem s' y) /\
+  get_doc (run gen_plans ops s') d = get_doc s' d.
+Proof.
+  exact (fun d dnew base s s' u ops H W Sy Dj Hs =>
+    match deep_copy_inv gen_plans d dnew base s s' u H W Sy Dj with
+    | conj W' (conj Sy' _) => other_side_unchanged gen_plans d s' ops W' Sy' Hs
+    end).
+Qed.
+Print Assumptions C09_copy_and_original_are_independent.
+
+(* (a call that names an element of the other side is outside the statement, and rightly so: linking the removed copy 20
+   to the original's pack format 3 would auto-parent it into the original document) *)
+Example C09_independence_example :
+  match xrun_succ gen_plans
+          (map XBase [ONewDoc 1; ONew 2 KObj 0 false; ONew 3 KPack 1 false; ONew 4 KStream 0 false; ONew 5 KTrack 0 false;
+                      OAddRef ObjPack 2 3; OAddRef StreamTrack 4 5; OAdd 1 2; OAdd 1 4]
+           ++ [XDeepCopy 1 9 20]) empty_state with
+  | Some s =>
+      (* on the copy: remove the object, re-point the track format to a new stream format, rename the pack format *)
+      let ops := [ORemove 9 20; ONew 30 KStream 0 false; OSetRef TrackStream 23 30; OSetId 21 (mkId 1 5000 0); OAdd 9 30] in
+      let s' := run gen_plans ops s in
+      refs s' 22 StreamTrack = [] /\ refs s' 30 StreamTrack = [23%positive] /\ parent s' 20 = None /\
+      get_elem s' 2 = get_elem s 2 /\ get_elem s' 3 = get_elem s 3 /\ get_elem s' 4 = get_elem s 4 /\
+      get_elem s' 5 = get_elem s 5 /\ get_doc s' 1 = get_doc s 1
+  | None => False
+  end.
+Proof. vm_compute. repeat split; reflexivity. Qed.
 
 (* a document with nested objects, a complementary object, a stream/track pair and a silent track UID used twice *)
 Example C09_deep_copy_example :
